@@ -8,8 +8,9 @@
 EXTENDS Srtp, Json, SequencesExt
 
 \* how the replayer embeds model values into real ones: "low" (ROC from 0, SRTCP index from 0), "highroc" (model ROC
-\* 0..MaxRoc -> real 2^32-1-MaxRoc .. 2^32-1), "rtcptop" (model SRTCP index RtcpTop -> real 2^31-1)
-CONSTANT Embed
+\* 0..MaxRoc -> real 2^32-1-MaxRoc .. 2^32-1), "rtcptop" (model SRTCP index RtcpTop -> real 2^31-1), "rtcppos" (the stream has already sent RtcpBase SRTCP packets:
+\* model SRTCP index w -> real RtcpBase + w; positions around 2^16 and 2^24, where index bytes move in the IV / nonce)
+CONSTANTS Embed, RtcpBase
 
 CtxRow(t, k) == <<k, IF t[k].on THEN 1 ELSE 0, t[k].roc, t[k].last, t[k].rtcp, IF t[k].idle THEN 1 ELSE 0>>
 B(b) == IF b THEN 1 ELSE 0
@@ -35,7 +36,7 @@ NextRow(t, s) ==
      ELSE <<s, -1, 0, 0>>
 
 EdgeRec ==
-  [ cfg  |-> [bits |-> SeqBits, wm |-> Watermark, rocmod |-> RocMod, table |-> B(WithTick), opendev |-> B("EvictLosesState" \in Deviations), embed |-> Embed, rtcptop |-> RtcpTop,
+  [ cfg  |-> [bits |-> SeqBits, wm |-> Watermark, rocmod |-> RocMod, table |-> B(WithTick), opendev |-> B("EvictLosesState" \in Deviations), embed |-> Embed, rtcptop |-> RtcpTop, rtcpbase |-> RtcpBase,
               start |-> SetToSeq({<<s, start[s]>> : s \in Ssrcs})],
     pre  |-> hist,
     act  |-> hist'[Len(hist')],
